@@ -1,7 +1,7 @@
 """C12 - URL <-> LRU conversion is lossless and serialization is invertible."""
 import os
 
-from harness import core, tlc
+from harness import core, harvest, tlc
 from harness.core import enc, dec, guarded
 
 PID = "C12"
@@ -64,6 +64,9 @@ def run(ctx):
     ctx.model_check("C12", cfg_text="SPECIFICATION Spec\nINVARIANT RoundTrip\n", env=ENV, label="S:C12 round trips on the Lru.tla model, full grammar x suffix_aware")
     data, _ = ctx.generate("Gen_C12", cfg_text="INIT GenInit\nNEXT GenNext\nCONSTANTS SN = %d\n" % ctx.pick(6000, 0), env=ENV, heap="12g")
     cases = [{"u": u, "sa": sa} for u in sorted(data["urls"]) for sa in (False, True)]
+    hv = [a[0] for a, _kw in harvest.inputs(ctx, "lru_stems") + harvest.inputs(ctx, "url_to_lru") if "|" not in a[0]]
+    cases += [{"u": enc(u), "sa": False} for u in hv]
+    ctx.extra["test_suite_inputs"] = len(hv)
     failing = core.judge(ctx, "harness.checks.c12", cases, "Trace_C12", TRACE_CFG, describe, env=ENV,
                          nontrivial=lambda c, e: (tuple(c["u"]), c["sa"]) if len(e["stems"]) > 3 else None)
     ctx.traces_validated = len(cases)
